@@ -5,14 +5,14 @@ in-process (Rust engine harness/src/props/c16.rs): for EVERY complete line up to
 equal (argv, redirections, assignments, background flag, list structure).
 process level (here): bounded line sets taken from C01, C03, C04, C10-C12 are run through -c, a script file, a
 function body and a sourced file by the real binary and compared with the -c run on helper records, created files,
-output and exit status. (The interactive prompt entry is exercised on a pty by C07/C20 lines only.)"""
+output and exit status. The same lines are also typed at the interactive prompt on a pty."""
 import itertools
 import os
 
-from .. import common
+from .. import common, ptydrv
 from . import c01
 
-MODES = ['c', 'script', 'function', 'source']
+MODES = ['c', 'script', 'function', 'source', 'prompt']
 
 
 def lines(tier):
@@ -79,6 +79,33 @@ def run_line(line):
             with open(os.path.join(d, 'emit.0'), 'w') as fh:
                 fh.write('emitted text\n')
             env = {'A': 'val a', 'HOME': '/HOMEMARK'}
+            if mode == 'prompt':
+                # typed at the interactive prompt of the real binary on a pty; the status is read with a second line
+                ses = ptydrv.Session(d, env=env, cwd=w)
+                try:
+                    if not ses.start():
+                        res[mode] = 'no-prompt'
+                        continue
+                    ok = ses.line(line, timeout=10.0)
+                    if ok:
+                        ses.line('vh-mark PROMPTSTATUS 0 $?', timeout=5.0)
+                    recs = ses.records()
+                    status = None
+                    keep = []
+                    for x in recs:
+                        if x.get('k') == 'mark' and x['argv'][:1] == ['PROMPTSTATUS']:
+                            status = int(x['argv'][2]) if len(x['argv']) > 2 and x['argv'][2].isdigit() else None
+                        else:
+                            keep.append(x)
+
+                    class R:
+                        pass
+                    r = R()
+                    r.records, r.out, r.err, r.status = keep, b'', b'', status
+                    res[mode] = snapshot(w, r) if ok else 'hang'
+                finally:
+                    ses.kill()
+                continue
             if mode == 'c':
                 argv = ['-c', line]
             else:
@@ -114,7 +141,7 @@ def run(rep, tier):
         'lines without positional parameters and without newline; lines that parse_line reports as incomplete are skipped (they cannot be submitted at the prompt)',
         'script path = scripting::expand_args followed by the same run_command_line as -c; function and source bodies take the same path',
         'records of background commands may appear in any order; the `-c` run is the reference',
-        'the interactive prompt entry point is not driven here',
+        'prompt entry point: the line is typed into the real interactive binary on a pty (records, files and status are compared; output is not separable on a terminal); lines with !! TAB or control characters are not in the sets',
     ]
     res = common.run_engine('C16', tier)
     rep.merge_engine(res)
@@ -126,14 +153,22 @@ def run(rep, tier):
         bad = False
         for mode in MODES[1:]:
             o = r[mode]
+            if o == 'no-prompt':
+                rep.machinery.append('pty: no prompt')
+                continue
             if o == 'hang' or ref == 'hang':
                 if o != ref:
                     rep.violation('entry:%s:hang' % mode, {'line': line, 'mode': mode}, 'same as -c', 'hang in one entry point only')
                     bad = True
                 continue
             for key in ('records', 'files', 'stdout', 'status', 'stderr'):
+                if mode == 'prompt' and key in ('stdout', 'stderr'):
+                    continue      # not separable on a terminal
                 a, b = ref[key], o[key]
                 if key == 'records':
+                    if mode == 'prompt':
+                        # at the prompt an unredirected stdin is the terminal (not recorded), with -c it is the harness's empty input
+                        a = [x[:3] + (None if y[3] is None and x[3] in (b'', None) else x[3],) for x, y in zip(a, b)] if len(a) == len(b) else a
                     a, b = sort_bg(a), sort_bg(b)
                 if key == 'stderr':
                     # diagnostics may name the script file; compare only whether something was written
